@@ -580,3 +580,64 @@ func VerifH_c02_incrbyfloat() {
 	vAssert("incrbyfloat-inf-error", vIsErr(vCmd(cs, "INCRBYFLOAT", "nokey", "inf")))
 	vAssert("incrbyfloat-inf-creates-nothing", vIsInt(vCmd(cs, "EXISTS", "nokey"), 0))
 }
+
+// VerifH_c02_set_expire: SET with EX / PX / EXAT / PXAT and an arbitrary
+// 64-bit number: zero and negative numbers are refused (and change nothing),
+// positive ones set the value with a deadline - in the past for an absolute
+// time before now, which makes the key vanish at once.  KEEPTTL together with
+// an expiry option is a syntax error.
+func VerifH_c02_set_expire() {
+	VerifSetup()
+	vSetNow(vT0, 0)
+	cs := vNewClient()
+	existed := vBool("exists")
+	if existed {
+		vCmd(cs, "SET", "k", "old")
+	}
+	opt := []string{"EX", "PX", "EXAT", "PXAT"}[vChoice("opt", 4)]
+	// every non-positive number symbolically; positive ones from a table around
+	// "now" (a symbolic positive number is multiplied by 10^9 on its way to a
+	// deadline, which no solver back end decides in reasonable time)
+	var ns string
+	var n int64
+	if vBool("non-positive") {
+		ns = vDecimal("n")
+		n = vDecimalOf(ns)
+		vAssume(n <= 0)
+	} else {
+		n = []int64{1, 100, 1699999999, 1700000001, 1699999999999, 1700000000001, 3999999999999}[vChoice("pos", 7)]
+		ns = vItoa(int(n))
+		// deadlines more than ~290 years away are not representable in the
+		// emulator's clock arithmetic and are refused by design (see C07):
+		// seconds are kept below 10^10, and absolute times below the year 2100
+		vAssume(opt == "PX" || opt == "PXAT" || n < 10000000000)
+		vAssume((opt != "EXAT" || n < 4102444800) && (opt != "PXAT" || n < 4102444800000))
+	}
+	args := []string{"SET", "k", "new", opt, ns}
+	if vBool("get") {
+		args = append(args, "GET")
+	}
+	r := vCmd(cs, args...)
+	g := vCmd(cs, "GET", "k")
+	if n <= 0 {
+		vAssert("set-non-positive-expire-error", vIsErr(r))
+		if existed {
+			vAssert("set-bad-expire-inert", vIsBulk(g, "old") && vTTLState(cs, "k") == -1)
+		} else {
+			vAssert("set-bad-expire-creates-nothing", vIsNil(g))
+		}
+		return
+	}
+	// a range in which the deadline is representable
+	vAssume(n < 4000000000000)
+	vAssert("set-with-expire-accepted", !vIsErr(r))
+	nowMs := int64(vT0) * 1000
+	inPast := (opt == "EXAT" && n*1000 <= nowMs) || (opt == "PXAT" && n <= nowMs)
+	if inPast {
+		vAssert("set-with-past-deadline-vanishes", vIsNil(g))
+	} else {
+		vAssert("set-with-expire-value", vIsBulk(g, "new"))
+		vAssert("set-with-expire-has-ttl", vTTLState(cs, "k") == 1)
+	}
+	vAssert("keepttl-with-expire-option-is-an-error", vIsErr(vCmd(cs, "SET", "k", "x", "KEEPTTL", opt, "100")))
+}
